@@ -16,6 +16,9 @@ import (
 type AbsCase struct {
 	Order map[[2]string]int
 	Bool  map[string]bool
+	// Vals gives abstract operands a representative integer value; two operands that
+	// both have one are ordered by it. "nil" / non-nil is modelled as 0 / 1.
+	Vals map[string]int64
 }
 
 // Classifier maps an SSA value to the abstract operand it denotes ("" = unknown).
@@ -122,6 +125,19 @@ func absCond(cond ssa.Value, path []*ssa.BasicBlock, cls Classifier, c AbsCase) 
 				return false, false, "comparison over unclassified operands: " + Describe(x.X) + " " + x.Op.String() + " " + Describe(x.Y)
 			}
 			ord, ok := c.Order[[2]string{a, b}]
+			if !ok {
+				if va, ha := c.Vals[a]; ha {
+					if vb, hb := c.Vals[b]; hb {
+						switch {
+						case va < vb:
+							ord = -1
+						case va > vb:
+							ord = 1
+						}
+						ok = true
+					}
+				}
+			}
 			if !ok {
 				if o2, ok2 := c.Order[[2]string{b, a}]; ok2 {
 					ord, ok = -o2, true
